@@ -32,12 +32,23 @@ Print Assumptions C13_inv_reflects.
 Theorem C13_member_slice : forall m its sh', MemberOk m -> no_special its -> (length its <= length (mal m))%nat ->
   sliced_shape (mshape m) (member_item m its) = Ok sh' ->
   let drops := int_positions 0 its in
-  let m' := mkM (mkey m) sh' (renumber_spec (mal m) drops) in
+  forall is_sequence, let m' := mkM (mkey m) sh' (renumber_spec (mal m) drops) is_sequence in
   MemberOk m' /\
   aligned_lens m' = map (fun j => the_len (znth j (aligned_lens m) 0) (nth (Z.to_nat j) its full_slice))
                         (remove_positions 0 drops (iotaZ (length (mal m)))).
 Proof. exact member_slice. Qed.
 Print Assumptions C13_member_slice.
+
+(* one member, cube or NDCubeSequence (axis 0 = the sequence axis), under its slice item: key and aligned-axes entry are
+   kept, the shape is the sliced shape, an integer on the sequence axis turns a sequence into a cube, and what is
+   left always has at least one cube dimension (0-d cubes do not exist: such a request is refused) *)
+Theorem C13_slice_member : forall m its m', slice_member m its = Ok m' ->
+  exists sh, sliced_shape (mshape m) (member_item m its) = Ok sh /\
+    mkey m' = mkey m /\ mshape m' = sh /\ mal m' = mal m /\
+    mseq m' = (mseq m && negb (match member_item m its with it :: _ => is_int it | [] => false end))%bool /\
+    (if mseq m' then tl sh else sh) <> [].
+Proof. exact slice_member_spec. Qed.
+Print Assumptions C13_slice_member.
 
 (* every supported edit - numeric slicing, selection by distinct keys, pop / del, update with a consistent set of
    members, copy - keeps the invariant, and a refused edit leaves the collection as it was *)
@@ -53,9 +64,9 @@ Print Assumptions C13_history.
 (* non-vacuity, and the witness on which the pinned tree (shared, mutated index array) went wrong:
    members with aligned axes (0,1,2) and (0,1,3), aligned indices 0 and 2 dropped -> both (0,) *)
 Example C13_nonvacuous :
-  update_aligned_axes [0; 2] [mkM 0 [2;3;4;5] [0;1;2]; mkM 1 [2;3;9;4] [0;1;3]] = Some [[0]; [0]]
+  update_aligned_axes [0; 2] [mkM 0 [2;3;4;5] [0;1;2] false; mkM 1 [2;3;9;4] [0;1;3] true] = Some [[0]; [0]]
   /\ renumber_spec [0;1;3] [0;2] = [0]
   /\ upd_axes [3;0;2] [1] = [2;1]
-  /\ (let c0 := mkColl [mkM 0 [2;3;4;5] [0;1;2]; mkM 1 [2;3;9;4] [0;1;3]] true in
+  /\ (let c0 := mkColl [mkM 0 [2;3;4;5] [0;1;2] false; mkM 1 [2;3;9;4] [0;1;3] true] true in
       inv c0 && inv (fold_left step_edit [ESlice [IInt 1; ISlice None (Some 2) None]; ERemove 0; ECopy] c0))%bool = true.
 Proof. vm_compute. repeat split. Qed.
